@@ -694,6 +694,8 @@ class SimTimeModule(object):
     monotonic = time
 
     def sleep(self, s):
+        if s < 0:
+            raise ValueError("sleep length must be non-negative")       # as the real time.sleep()
         K().time.sleep(s)
 
     def strftime(self, *a):
